@@ -412,7 +412,7 @@ class CFG:
                     changed = True
         return dom
 
-    def paths(self, start=None, max_paths=50000, state0=None, step=None, loop_visits=2):
+    def paths(self, start=None, max_paths=50000, state0=None, step=None, loop_visits=2, max_visits=1):
         """Enumerate paths start -> terminal. Each node is visited at most once, loop heads at most `loop_visits`
         times (body executed 0 or 1 times).  `step(state, node, label_out) -> new state | None` lets a rule track
         facts along the path and prune infeasible edges (return None)."""
@@ -422,7 +422,7 @@ class CFG:
 
         def limit(nid):
             n = self.nodes[nid]
-            return loop_visits if n.kind in ('for',) or (n.kind == 'test' and isinstance(n.ast, ast.While)) else 1
+            return loop_visits if n.kind in ('for',) or (n.kind == 'test' and isinstance(n.ast, ast.While)) else max_visits
 
         def rec(nid, path, visits, state):
             n = self.nodes[nid]
